@@ -335,6 +335,22 @@ pub struct CompressCase {
     pub src: Vec<u8>,
 }
 
+/// output of the library writer in the harness: bytes become part of the result only when flushed
+#[derive(Default)]
+pub struct LazyWriter { pub committed: Vec<u8>, pub pending: Vec<u8> }
+impl tokio::io::AsyncWrite for LazyWriter {
+    fn poll_write(mut self: std::pin::Pin<&mut Self>, _cx: &mut std::task::Context<'_>, buf: &[u8]) -> std::task::Poll<std::io::Result<usize>> {
+        self.pending.extend_from_slice(buf);
+        std::task::Poll::Ready(Ok(buf.len()))
+    }
+    fn poll_flush(mut self: std::pin::Pin<&mut Self>, _cx: &mut std::task::Context<'_>) -> std::task::Poll<std::io::Result<()>> {
+        let p = std::mem::take(&mut self.pending);
+        self.committed.extend_from_slice(&p);
+        std::task::Poll::Ready(Ok(()))
+    }
+    fn poll_shutdown(self: std::pin::Pin<&mut Self>, cx: &mut std::task::Context<'_>) -> std::task::Poll<std::io::Result<()>> { self.poll_flush(cx) }
+}
+
 pub fn run_create_archive(c: &CompressCase, buffers: usize, sched: Vec<Ev>) -> Result<Vec<u8>, String> {
     let opts = bitar::api::compress::CreateArchiveOptions {
         chunker_config: c.cfg.to_config(),
@@ -351,9 +367,12 @@ pub fn run_create_archive(c: &CompressCase, buffers: usize, sched: Vec<Ev>) -> R
         let rt = RT.get_or_init(|| tokio::runtime::Builder::new_multi_thread().worker_threads(3).enable_all().build().unwrap());
         rt.block_on(async move {
             let reader = ScriptReader::new(src, sched);
-            let mut out: Vec<u8> = vec![];
+            // a writer that, like a BufWriter or a tokio File, only commits what was written when it is flushed:
+            // what counts as the archive is what is committed when create_archive returns
+            let mut out = LazyWriter::default();
             match bitar::api::compress::create_archive(reader, &mut out, &opts).await {
-                Ok(_) => Ok(out),
+                Ok(_) if !out.pending.is_empty() => Err(format!("UNFLUSHED {} of {} bytes were written but not flushed when create_archive returned", out.pending.len(), out.pending.len() + out.committed.len())),
+                Ok(_) => Ok(out.committed),
                 Err(e) => Err(format!("error {}", e)),
             }
         })
@@ -651,6 +670,7 @@ pub fn suite_compress(dir: &str, seed: u64, thorough: bool, st: &mut Stats) {
                 }
                 Err(e) => {
                     st.violation("C11", &format!("library writer failed on a valid configuration: {}", e), &compress_line(&c, &[]));
+                    if e.starts_with("UNFLUSHED") { st.violation("C12", &format!("what the library writer has committed when it returns depends on the output's buffering: {}", e), &compress_line(&c, &[])); }
                 }
             }
         }
